@@ -125,6 +125,7 @@ class Terminal(object):
         self.err = []
         self.reads = 0
         self.eof = False
+        self.eof_delivered = False
         self.reads_after_eof = 0
         self.aborted = False
         self.on_read = None  # optional callback(prompt) used by informational fault kinds
@@ -150,7 +151,11 @@ class Terminal(object):
             raise SimAbort("read cap of %d exceeded" % self.max_reads)
         out = self.flush_pending()
         if self.eof:
-            self.reads_after_eof += 1
+            # end of input is sticky; the first "e" after a mid-line end *is* the end of input,
+            # only reads that follow a delivered end of input count as reads_after_eof
+            if self.eof_delivered:
+                self.reads_after_eof += 1
+            self.eof_delivered = True
             self.events.append(["r", "e", ""])
             return ""
         prompt = out.rsplit("\n", 1)[-1]
@@ -162,6 +167,7 @@ class Terminal(object):
         self.events.append(["r", kind, text])
         if kind == "e":
             self.eof = True
+            self.eof_delivered = True
             return ""
         if kind == "m":
             self.eof = True
